@@ -1,5 +1,6 @@
 import MindsVerif.Lemmas.RouteInfo
 import MindsVerif.Lemmas.RouteSem
+import MindsVerif.Lemmas.RouteNorm
 /-!
 # C11 — a query on one SQL integration is pushed down whole and unchanged in meaning
 
@@ -254,5 +255,139 @@ example : planTop true [] cat2 [] joinQuery = some [.fetch n!"int1" (strip n!"in
   rcases hit with rfl | rfl
   · exact ⟨_, rfl, Or.inr ⟨[n!"s"], by decide⟩⟩
   · exact ⟨_, rfl, Or.inr ⟨[n!"t"], by decide⟩⟩
+
+/-! ## Round 6 — the case-mapping as a parameter; planner-made identifiers keep names exactly
+
+`Model/RouteNorm.lean` is the model with one `Norm := Name → Name` per SITE that normalises names: constructor (`nk`),
+resolver / decision (`nr`), cut (`nc`).  The law the code has to obey is that they are the same function.
+`C11_norm_consistent`: that is sufficient, for EVERY function (ASCII `lower`, Python's `str.lower`, `str.casefold`, …):
+the query pushed to `i` is the original in which every table reference that the decision site resolved to
+(`i`, `rest`) reads exactly `rest`.  `C11_witness_norm_cut` / `_ctor`: two different functions diverge.  The tie is the
+`norm` stream of `tools/props/c11.py` / `c10.py`: the real planner against this model instantiated with Python's
+`str.lower` (sent along per case as a code-point table) at all three sites, on catalogs and queries with non-ASCII and
+case-variant integration / project names. -/
+
+/-- at `lower` the generic model is the model of `Model/Route.lean`: every theorem above is about its `lower` instance -/
+theorem C11_norm_instance (names : List Name) (c : Catalog) (ctes : List Name) (q : Node) :
+    planTopG lower lower names c ctes q = planTop true names c ctes q ∧ mkCatalogG lower = mkCatalog :=
+  ⟨planTopG_lower names c ctes q, mkCatalogG_lower⟩
+
+/-- ONE normaliser at the decision site and the cut site ⇒ consistent, at the top-level site: the plan is one fetch
+step for `i`; the identifiers the walker visits in the pushed query are the original ones with the cut applied; and every
+visited table identifier is a CTE name or was resolved by the decision site to (`i`, `rest`), `i` a data integration,
+and reads exactly `rest` in the pushed query -/
+theorem C11_norm_consistent (n : Norm) (names : List Name) (c : Catalog) (hd : defaultKnown c = true)
+    (ctes : List Name) (q : Node) (steps : List Step) (h : planTopG n n names c ctes q = some steps) :
+    ∃ i, steps = [.fetch i (stripG n i names .noFrom .arg q)] ∧
+      visitedIdents .arg (stripG n i names .noFrom .arg q) = (visitedIdents .arg q).map (cutIdG n i names) ∧
+      ∀ x ∈ visitedIdents .arg q, x.2.2 = true → x.2.1 = false →
+        isCteRef ctes x.1 = true ∨
+        ∃ rest, resolveSimpleG n c x.1 = some (i, rest) ∧ i ∉ c.projects ∧ (cutIdG n i names x).1 = rest := by
+  unfold planTopG at h
+  cases hc : checkSingleG n c ctes (visit .arg q) with
+  | none => simp [hc] at h
+  | some i =>
+    simp only [hc, Option.some.injEq] at h
+    exact ⟨i, h.symm, visitedIdents_stripG n i names .noFrom .arg q,
+      pushed_tables_consistent n names c hd ctes q i (checkSingleJoinG_of_checkSingleG n c ctes _ i hc)⟩
+
+/-- the same at the join planner's site (`PlanJoin.plan`, "send join to integration as is") -/
+theorem C11_norm_consistent_join (n : Norm) (names : List Name) (c : Catalog) (hd : defaultKnown c = true)
+    (ctes : List Name) (q : Node) (steps : List Step) (h : planJoinG n n names c ctes q = some steps) :
+    ∃ i, steps = [.fetch i (stripG n i names .noFrom .arg q)] ∧
+      visitedIdents .arg (stripG n i names .noFrom .arg q) = (visitedIdents .arg q).map (cutIdG n i names) ∧
+      ∀ x ∈ visitedIdents .arg q, x.2.2 = true → x.2.1 = false →
+        isCteRef ctes x.1 = true ∨
+        ∃ rest, resolveSimpleG n c x.1 = some (i, rest) ∧ i ∉ c.projects ∧ (cutIdG n i names x).1 = rest := by
+  unfold planJoinG at h
+  cases hc : checkSingleJoinG n c ctes (visit .arg q) with
+  | none => simp [hc] at h
+  | some i =>
+    simp only [hc, Option.some.injEq] at h
+    exact ⟨i, h.symm, visitedIdents_stripG n i names .noFrom .arg q, pushed_tables_consistent n names c hd ctes q i hc⟩
+
+/-- `integrations=['Straße'], default_namespace='mindsdb'`, stored with `str.lower` -/
+def catS : Catalog := mkCatalogG lower ⟨some [.nm n!"Straße"], none, .none, some n!"mindsdb"⟩
+
+/-- ``select * from `Straße`.tab where `Straße`.tab.a > 10`` -/
+def sharpQuery : Node :=
+  .scope (.sel false) (.cons .tbl (.ident [n!"Straße", n!"tab"] false none)
+    (.cons .tgt (.ident [] true none)
+      (.cons .arg (.plain (.cons .arg (.ident [n!"Straße", n!"tab", n!"a"] false none) (.cons .arg .leaf .nil))) .nil)))
+
+def Step.tables : Step → List (List Name × Bool × Bool)
+  | .fetch _ q => (visitedIdents .arg q).filter (·.2.2)
+
+/-- two different functions diverge (the round-6 change: `casefold()` at the cut, `lower()` everywhere else): the
+query is still sent whole to `straße`, but the qualifier is not recognised and stays on the table; with one function
+at both sites — either of the two — it is removed -/
+theorem C11_witness_norm_cut :
+    (planTopG lower fold [n!"tab"] catS [] sharpQuery).map (·.map Step.integration) = some [n!"straße"] ∧
+    (planTopG lower fold [n!"tab"] catS [] sharpQuery).map (·.flatMap Step.tables) =
+      some [([n!"Straße", n!"tab"], false, true)] ∧
+    (planTopG lower lower [n!"tab"] catS [] sharpQuery).map (·.flatMap Step.tables) = some [([n!"tab"], false, true)] ∧
+    (planTopG fold fold [n!"tab"] (mkCatalogG fold ⟨some [.nm n!"Straße"], none, .none, some n!"mindsdb"⟩) []
+        sharpQuery).map (·.flatMap Step.tables) = some [([n!"tab"], false, true)] ∧
+    resolveSimpleG lower catS [n!"Straße", n!"tab"] = some (n!"straße", [n!"tab"]) ∧
+    defaultKnown catS = true := by decide
+
+/-- so `C11_norm_consistent` does not hold for two arbitrary functions: the law "same function" is needed -/
+theorem C11_norm_needs_same : ¬ (∀ (nr nc : Norm) (names : List Name) (c : Catalog), defaultKnown c = true →
+    ∀ (ctes : List Name) (q : Node) (steps : List Step), planTopG nr nc names c ctes q = some steps →
+    ∃ i, steps = [.fetch i (stripG nc i names .noFrom .arg q)] ∧
+      ∀ x ∈ visitedIdents .arg q, x.2.2 = true → x.2.1 = false → isCteRef ctes x.1 = true ∨
+        ∃ rest, resolveSimpleG nr c x.1 = some (i, rest) ∧ (cutIdG nc i names x).1 = rest) := fun h => by
+  cases hp : planTopG lower fold [n!"tab"] catS [] sharpQuery with
+  | none => have := C11_witness_norm_cut.1; rw [hp] at this; exact absurd this (by decide)
+  | some steps =>
+    obtain ⟨i, hs, hall⟩ := h lower fold [n!"tab"] catS C11_witness_norm_cut.2.2.2.2.2 [] sharpQuery steps hp
+    have h1 := C11_witness_norm_cut.1
+    rw [hp, hs] at h1
+    simp only [Option.map_some, List.map_cons, List.map_nil, Step.integration, Option.some.injEq,
+      List.cons.injEq, and_true] at h1
+    subst h1
+    rcases hall ([n!"Straße", n!"tab"], false, true) (by decide) rfl rfl with hc | ⟨rest, hr, hcut⟩
+    · exact absurd hc (by decide)
+    · rw [C11_witness_norm_cut.2.2.2.2.1] at hr
+      simp only [Option.some.injEq, Prod.mk.injEq, true_and] at hr
+      subst hr
+      exact absurd hcut (by decide)
+
+/-- the other pair of sites: a constructor that stores names case-folded (`strasse`) while the resolver lower-cases
+(`straße`): the integration is not found, the table falls to the default namespace and nothing is pushed down -/
+theorem C11_witness_norm_ctor :
+    planTopG lower lower [n!"tab"] (mkCatalogG fold ⟨some [.nm n!"Straße"], none, .none, some n!"mindsdb"⟩) []
+      sharpQuery = none ∧
+    resolveSimpleG lower (mkCatalogG fold ⟨some [.nm n!"Straße"], none, .none, some n!"mindsdb"⟩)
+      [n!"Straße", n!"tab"] = some (n!"mindsdb", [n!"Straße", n!"tab"]) := by decide
+
+-- non-vacuity of `C11_norm_consistent` THROUGH the theorem, with a normaliser that is not `lower`
+example : ∃ i, planTopG fold fold [n!"tab"] (mkCatalogG fold ⟨some [.nm n!"Straße"], none, .none, some n!"mindsdb"⟩) []
+    sharpQuery = some [.fetch i (stripG fold i [n!"tab"] .noFrom .arg sharpQuery)] := by
+  cases hp : planTopG fold fold [n!"tab"] (mkCatalogG fold ⟨some [.nm n!"Straße"], none, .none, some n!"mindsdb"⟩) []
+      sharpQuery with
+  | none => exact absurd hp (by decide)
+  | some steps =>
+    obtain ⟨i, hs, _⟩ := C11_norm_consistent fold [n!"tab"] _ (by decide) [] sharpQuery steps hp
+    exact ⟨i, by rw [hs]⟩
+
+/-- T11.2 sharpened: the alias the planner adds to a bare identifier target is ONE part, the column's own (last) name
+verbatim — dots, spaces, back-quotes and upper case included — for every normaliser of the cut -/
+theorem C11_alias_exact (nc : Norm) (db : Name) (names : List Name) (parts : List Name) (l : Name)
+    (h : parts.getLast? = some l) :
+    (stripIdentG nc db names (.sel false) .tgt parts false none).2 = some [l] := alias_exact nc db names parts l h
+
+/-- the path-string constructor `Identifier(name)` is the identity only on names without dots … -/
+theorem C11_path_str_nodot (l : Name) (h : dot ∉ l) (hne : l ≠ []) : pathParts l = [l] := pathParts_nodot l h hne
+
+/-- … an alias built with it for the quoted column `a.b` has two parts: the output column is called `b`, not `a.b` (and
+``tab.`a.b` AS a.b`` is not even a statement) — the round-6 change `Identifier(last_part)` -/
+theorem C11_witness_alias_path_str :
+    pathParts n!"a.b" = [n!"a", n!"b"] ∧
+    outName [n!"tab", n!"a.b"] (some (pathParts n!"a.b")) = some n!"b" ∧
+    outName [n!"tab", n!"a.b"] (stripIdentG lower n!"int1" [] (.sel false) .tgt [n!"int1", n!"tab", n!"a.b"] false none).2 =
+      some n!"a.b" ∧
+    (stripIdentG lower n!"int1" [] (.sel false) .tgt [n!"int1", n!"tab", n!"a.b"] false none) =
+      ([n!"tab", n!"a.b"], some [n!"a.b"]) := by decide
 
 end MindsVerif.Props.C11
